@@ -30,7 +30,8 @@
 //             closed and ready cases, send/close on closed channels
 //   channil   nil channels (send/recv/close/len/cap, nil cases in select)
 //   chanlen   len/cap of a cap-2 and an unbuffered channel under traffic
-// Behind VS_SLIPS=1 (each FAILS on the current engine: a real behaviour the model cannot produce;
+// Families rwx / condx / smaprange (VS_SLIPS=0 leaves them out) FAILED on the engine as it was before session 4 and pass since
+// the three corrections in vsched/sync.go (a real behaviour the model could not produce;
 // proposed corrections in /verif/.work/vs-proposed/, with which all of them pass):
 //   rwx       S1: a writer that WAITS in RWMutex.Lock already blocks new readers; the model lets
 //             them in ("rlock | rlock | wlock" really ends "ok | blocked | blocked"). Also: the
